@@ -442,6 +442,10 @@ func (g *Gen) step() {
 					g.do(fmt.Sprintf("qa %d 0", k))
 					g.do(fmt.Sprintf("qa %d %d", k, g.rng.intn(cnt)))
 				}
+				// ... and just beyond its end: the documented panic, also when several recorded ranges lie in one table
+				if g.rng.chance(30) {
+					g.do(fmt.Sprintf("qa %d %d", k, cnt+g.rng.intn(3)))
+				}
 			}
 			// ... and a fresh result query entered with Step rather than Next (its first range
 			// usually starts behind entities that were in the destination table before)
@@ -1018,6 +1022,33 @@ func (g *Gen) genBatch(faulty bool) {
 		g.do(fmt.Sprintf("%s%s %s %d %s", cmd, q, f, r, tg))
 	case 7: // Relations.ExchangeBatch: add relation r with target
 		if len(g.rels) == 0 {
+			return
+		}
+		if len(g.plain) >= 2 && g.rng.chance(40) {
+			// children of two parents that already carry the relation get one more component and ALL become children
+			// of the first parent — for one source table the target changes, for the other it does not — while a narrow
+			// listener (target changes only / relation changes only / everything, restricted to the relation) is installed
+			r := pick(g.rng, g.rels)
+			base := g.plain[0]
+			extra := g.plain[1]
+			g.do("new 0")
+			p1 := len(g.r.handles) - 1
+			g.do("new 0")
+			p2 := len(g.r.handles) - 1
+			first, second := p1, p2
+			if g.rng.chance(50) {
+				first, second = p2, p1
+			}
+			for i := 0; i < 1+g.rng.intn(2); i++ {
+				g.do(fmt.Sprintf("bld I %s R %d new T e%d", idsStr([]int{base, r}), r, first))
+				g.do(fmt.Sprintf("bld I %s R %d new T e%d", idsStr([]int{base, r}), r, second))
+			}
+			g.do(pick(g.rng, []string{"lst 32 -", "lst 16 -", "lst 48 -", fmt.Sprintf("lst 63 C %s", idsStr([]int{r}))}))
+			g.do(fmt.Sprintf("rb_xchg%s W %s %s %s 0 %d e%d", q, idsStr([]int{base, r}), idsStr([]int{extra}), idsStr([]int{extra}), r, p1))
+			if q == "q" {
+				g.do(fmt.Sprintf("qx %d", len(g.r.queries)-1))
+			}
+			g.do("lst 63 -")
 			return
 		}
 		r := pick(g.rng, g.rels)
